@@ -265,6 +265,8 @@ class C07(Prop):
             "first": first, "rest": rest,
             "end": st.sampled_from(["eof", "eof", "reset", "silence", "tls_error", "tls_eof", "io_error"]),
             "tls": gen.weighted([(3, st.just(False)), (1, st.just(True))]),
+            # an earlier connection in this process (same WebSocket object or another) and how it ended
+            "prelude": gen.prelude(),
             "reactions": st.lists(rule, max_size=4), "copts": opts,
             "addrs": st.lists(st.sampled_from(["ok", "refused", "timeout", "sockerr"]), min_size=1, max_size=3),
             # "every fault": one non-fatal write fault (the k-th sendall times out / raises)
